@@ -20,6 +20,8 @@
 #include <string>
 #include <vector>
 
+#include <unistd.h>
+
 namespace vf {
    inline std::string jstr(std::string_view s)
    {
@@ -106,7 +108,20 @@ namespace vf {
          return std::chrono::duration<double>(std::chrono::steady_clock::now() - t0).count();
       }
       bool expired() const { return elapsed() > deadline_s; }
-      bool mine(long long i) const { return (i % shards) == shard; }
+      // Work distribution; every call also kicks the hang watchdog (see install_crash_handler): a single unit of work that
+      // runs for longer than hang_s seconds is reported as a hang of the library (on the unchanged tree every unit takes
+      // milliseconds to a few seconds).
+      unsigned hang_s = 300;
+      bool mine(long long i) const
+      {
+         if (watchdog) {
+            auto now = std::chrono::steady_clock::now();
+            if (now - last_kick > std::chrono::seconds(1)) { last_kick = now; alarm(hang_s); }
+         }
+         return (i % shards) == shard;
+      }
+      bool watchdog = false;
+      mutable std::chrono::steady_clock::time_point last_kick = std::chrono::steady_clock::now();
    };
 
    inline Options parse_options(int argc, char** argv)
@@ -292,7 +307,7 @@ namespace vf {
    inline void crash_signal(int sig)
    {
       const char* how = sig == SIGSEGV ? "SIGSEGV" : sig == SIGABRT ? "SIGABRT" : sig == SIGFPE ? "SIGFPE"
-                        : sig == SIGBUS ? "SIGBUS" : sig == SIGILL ? "SIGILL" : "signal";
+                        : sig == SIGBUS ? "SIGBUS" : sig == SIGILL ? "SIGILL" : sig == SIGALRM ? "hang" : "signal";
       crash_emit(how);
       _exit(3);
    }
@@ -312,7 +327,11 @@ namespace vf {
       struct sigaction sa{};
       sa.sa_handler = crash_signal;
       sa.sa_flags = SA_ONSTACK | SA_RESETHAND;
-      for (int sig : { SIGSEGV, SIGABRT, SIGFPE, SIGBUS, SIGILL }) sigaction(sig, &sa, nullptr);
+      for (int sig : { SIGSEGV, SIGABRT, SIGFPE, SIGBUS, SIGILL, SIGALRM }) sigaction(sig, &sa, nullptr);
+      // hang watchdog: re-armed by every Options::mine() call
+      if (const char* h = std::getenv("VERIF_HANG_S")) const_cast<Options&>(o).hang_s = unsigned(std::atoi(h));
+      const_cast<Options&>(o).watchdog = o.replay.empty();
+      if (o.watchdog) alarm(o.hang_s);
    }
 }
 
